@@ -2,3 +2,4 @@ pub mod layouts;
 pub mod luau;
 pub mod programs;
 pub mod refactor;
+pub mod trees;
